@@ -114,6 +114,8 @@ ESchema(i) ==
     ("A" :> DAlias("nsb", Str13, "")) @@
     ("K" :> DUnion("nsb", "", TRUE, <<Tag("red", TVoid), Tag("green", TVoid)>>)) @@
     ("L" :> DStruct("nsb", "", <<Fld("l1", I32b)>>, <<>>, FALSE)) @@
+    ("AL" :> DAlias("nsb", TList(TRef("L"), Unset, Unset), "")) @@      \* alias of a list of structs
+    ("OL" :> DAlias("nsb", TNull(TRef("L")), "")) @@                    \* alias of a nullable struct
     ("E" :> DStruct("nsa", "", <<Fld("e1", TNull(TStr(Unset, Unset, ""))), FldD("e2", TInt("Int64", Unset, Unset), VInt(13))>>, <<>>, FALSE)) @@
     ("S" :> DStruct("nsa", "", <<Fld("f1", X), Fld("f2", TNull(TRef("A"))), FldD("f3", I32b, VInt(12))>>, <<>>, FALSE)) @@
     ("C" :> DStruct("nsa", "S", <<Fld("g1", TRef("L")), Fld("g2", TNull(TList(TRef("L"), Unset, Unset))),
@@ -125,7 +127,9 @@ ESchema(i) ==
     ("U" :> DUnion("nsa", "", FALSE, <<Tag("tv", TVoid), Tag("tp", X), Tag("ts", TRef("E")), Tag("tn", TNull(TRef("S"))),
                                         Tag("tt", TRef("P")), Tag("tu", TRef("K")), Tag("tl", TList(TRef("L"), Unset, Unset)),
                                         \* members typed by a LEAF of the subtype tree (flattened like any struct), also nullable
-                                        Tag("tq", TRef("Q")), Tag("tqn", TNull(TRef("R")))>>)) @@
+                                        Tag("tq", TRef("Q")), Tag("tqn", TNull(TRef("R"))),
+                                        \* members named through aliases of containers / nullables
+                                        Tag("tal", TRef("AL")), Tag("tol", TRef("OL"))>>)) @@
     ("V" :> DUnion("nsa", "U", FALSE, <<Tag("tw", TNull(TRef("L"))), Tag("tx", TVoid)>>))
 Examples(i) ==
     LET x == Slots[i].x IN
@@ -143,9 +147,10 @@ Examples(i) ==
     ("U" :> <<Ex("ex_tp", "tp" :> x), Ex("ex_ts", "ts" :> XRef("full")), Ex("ex_tn_null", "tn" :> XNull),
               Ex("ex_tn", "tn" :> XRef("alt")), Ex("ex_tt", "tt" :> XRef("second")), Ex("ex_tu", "tu" :> XRef("red")),
               Ex("ex_tl", "tl" :> XList(<<XRef("default")>>)), Ex("ex_tq", "tq" :> XRef("default")),
-              Ex("ex_tqn", "tqn" :> XRef("withl")), Ex("ex_tqn_null", "tqn" :> XNull)>>) @@
+              Ex("ex_tqn", "tqn" :> XRef("withl")), Ex("ex_tqn_null", "tqn" :> XNull),
+              Ex("ex_tal", "tal" :> XList(<<XRef("default"), XRef("other")>>)), Ex("ex_tol", "tol" :> XRef("other"))>>) @@
     ("V" :> <<Ex("ex_tw", "tw" :> XRef("other")), Ex("ex_inherited", "ts" :> XRef("default"))>>) @@
-    ("K" :> <<>>) @@ ("A" :> <<>>)
+    ("K" :> <<>>) @@ ("A" :> <<>>) @@ ("AL" :> <<>>) @@ ("OL" :> <<>>)
 ExByLabel(exs, n, label) == LET s == SelectSeq(exs[n], LAMBDA e : e.label = label) IN s
 \* the labels a type has: declared ones, plus one per void tag for unions (own and inherited)
 Labels(sc, exs, n) ==
